@@ -480,6 +480,15 @@ package hashgraph
 //@   safety on
 //@   requires h != nil && FESound(frameEvent) && h.MemoOK()
 //@   assume[frame-values] RoundV(h, HexOf(frameEvent.Core)) == frameEvent.Round && WitV(h, HexOf(frameEvent.Core)) == frameEvent.Witness && LTV(h, HexOf(frameEvent.Core)) == frameEvent.LamportTimestamp
+// what is recorded for a frame event is what the frame says, under the event's own hash
+//@   call Add#1 assert[round-cached]     __recv() == h.roundCache && __arg(0) == interface{}(HexOf(frameEvent.Core)) && __arg(1) == interface{}(frameEvent.Round)
+//@   call Add#2 assert[witness-cached]   __recv() == h.witnessCache && __arg(0) == interface{}(HexOf(frameEvent.Core)) && __arg(1) == interface{}(frameEvent.Witness)
+//@   call Add#3 assert[timestamp-cached] __recv() == h.timestampCache && __arg(0) == interface{}(HexOf(frameEvent.Core)) && __arg(1) == interface{}(frameEvent.LamportTimestamp)
+//@   call AddCreatedEvent assert[created] __arg(0) == HexOf(frameEvent.Core) && __arg(1) == frameEvent.Witness
+//@   call SetRound#1 assert[round-set]    __recv() == frameEvent.Core && __arg(0) == frameEvent.Round
+//@   call SetRound#2 assert[round-stored] __arg(0) == frameEvent.Round && __called("AddCreatedEvent")
+//@   call SetEvent assert[event-stored]   __arg(0) == frameEvent.Core
+//@   call AddConsensusEvent assert[consensus-event] __arg(0) == frameEvent.Core
 //@   ensures[memo] h.MemoOK()
 
 //@ func (h *Hashgraph) Reset(block *Block, frame *Frame) error
@@ -489,6 +498,13 @@ package hashgraph
 //@   requires[frame-peers] FrameWF(frame) && FramePeerSetsOK(frame)
 //@   requires[lt-cache]    h.LtCachePure()
 //@   ensures[anchor] ret0 == nil && block.Body.Index >= 0 ==> G_lastBlock(h.Store) == block.Body.Index
+// where the reset hashgraph resumes (C02/C13): consensus continues from the block's round-received - it is the last
+// consensus round, the first one (the old counters were cleared) and the lower bound below which fame is never decided
+// again; the queues are empty and no anchor is held
+//@   ensures[resume] ret0 == nil ==> h.LastConsensusRound != nil && *h.LastConsensusRound == block.Body.RoundReceived && h.FirstConsensusRound != nil && *h.FirstConsensusRound == block.Body.RoundReceived && h.roundLowerBound != nil && *h.roundLowerBound == block.Body.RoundReceived
+//@   ensures[cleared] ret0 == nil ==> len(h.UndeterminedEvents) == 0 && h.AnchorBlock == nil && h.PendingRounds != nil && (forall r int :: !__in(r, h.PendingRounds.items)) && h.PendingLoadedEvents == 0
+//@   call SetBlock assert[the-block] __arg(0) == block
+//@   call Reset assert[the-frame] __arg(0) == frame
 //@   ensures[memo] h.MemoOK()
 //@   ensures[ready] ret0 == nil && old(h.PendingSignatures) != nil && old(h.PendingSignatures.items) != nil ==> h.ConsensusReady()
 //@   loop 1 invariant[memo] h.MemoOK() && (forall k int :: 0 <= k && k < len(sortedFrameEvents) ==> FESound(sortedFrameEvents[k]))
@@ -1709,6 +1725,24 @@ package hashgraph
 //@   ensures[written]       ret0 == nil && !s.maintenanceMode ==> __in(string(peerSetKey(round)), G_raw(s.db))
 //@   loop 1 invariant[record] !s.maintenanceMode ==> __in(string(peerSetKey(round)), G_raw(s.db))
 //@   loop 1 invariant[maintenance] s.maintenanceMode ==> __eq(G_raw(s.db), old(G_raw(s.db)))
+
+// Reset dispatch (fast-sync): the in-memory store is reset first (a refusal leaves the database alone), nothing is
+// written in maintenance mode, and a successful reset has written the frame record and the validator-set record of the
+// frame's round (root records: one dbSetRoot per root of the frame - the in-memory reset shares the frame's root map and
+// may add empty roots to it, all non-nil: assumed at the call).
+//@ func (s *BadgerStore) Reset(frame *Frame) error
+//@   requires s != nil && s.inmemStore != nil && s.db != nil && frame != nil && s.inmemStore.coupled() && FrameWF(frame) && FramePeerSetsOK(frame)
+//@   call dbSetRoot assume[root-nonnil] root != nil && s.db != nil
+//@   call dbSetRoot assume[key-spaces] string(participantRootKey(p)) != string(frameKey(frame.Round))
+//@   call dbSetPeerSet assume[key-spaces] string(peerSetKey(frame.Round)) != string(frameKey(frame.Round))
+//@   call dbSetFrame assert[cache-first] __called("Reset") && __lastret("Reset", 0) == nil && !s.maintenanceMode && __arg(0) == frame
+//@   call dbSetRoot assert[of-frame] __arg(0) == p && __arg(1) == root
+//@   ensures[maintenance] s.maintenanceMode ==> __eq(G_raw(s.db), old(G_raw(s.db)))
+//@   ensures[refused]     !__called("dbSetFrame") ==> __eq(G_raw(s.db), old(G_raw(s.db)))
+//@   ensures[frame]       ret0 == nil && !s.maintenanceMode ==> __in(string(frameKey(frame.Round)), G_raw(s.db))
+//@   ensures[peer-set]    ret0 == nil && !s.maintenanceMode ==> __in(string(peerSetKey(frame.Round)), G_raw(s.db))
+//@   loop 1 modifies G_raw(s.db), anyghost hashgraph.pend
+//@   loop 1 invariant[frame]  __in(string(frameKey(frame.Round)), G_raw(s.db))
 
 //@ func (s *InmemStore) RepertoireByID() map[uint32]*peers.Peer
 //@   implements Store.RepertoireByID
